@@ -1,4 +1,4 @@
-CONSTANTS NT = 2 MaxW = 2 MaxE = 3 MaxR = 0 Buffer = TRUE Deviations = {}
+CONSTANTS NT = 2 MaxW = 2 MaxE = 3 MaxR = 0 Buffer = TRUE Deviations = {} Starts = {"main", "child"}
 SPECIFICATION Spec
 INVARIANT NoLeak
 INVARIANT Complete
